@@ -23,7 +23,8 @@ META = {
     "design_ref": "DESIGN.md section 5 C07",
 }
 
-PARAMS = {"AM1": ["U_ss", "U_pp", "zeta_s", "zeta_p", "beta_s", "beta_p", "g_ss", "g_sp", "g_pp", "g_p2", "h_sp", "alpha", "Gaussian1_K", "Gaussian2_L", "Gaussian1_M"],
+PARAMS = {"PM6_SP": ["U_ss", "U_pp", "zeta_s", "zeta_p", "beta_s", "beta_p", "g_ss", "g_sp", "g_pp", "g_p2", "h_sp", "alpha"],
+          "AM1": ["U_ss", "U_pp", "zeta_s", "zeta_p", "beta_s", "beta_p", "g_ss", "g_sp", "g_pp", "g_p2", "h_sp", "alpha", "Gaussian1_K", "Gaussian2_L", "Gaussian1_M"],
           "MNDO": ["U_ss", "U_pp", "zeta_s", "zeta_p", "beta_s", "beta_p", "g_ss", "g_sp", "g_pp", "g_p2", "h_sp", "alpha"],
           "PM3": ["U_ss", "U_pp", "zeta_s", "zeta_p", "beta_s", "beta_p", "g_ss", "g_sp", "g_pp", "g_p2", "h_sp", "alpha", "Gaussian1_K", "Gaussian2_L", "Gaussian2_M"]}
 
@@ -78,6 +79,11 @@ def probe_param_grad(inp: Dict[str, Any]) -> Dict[str, Any]:
     bad: List[str] = []
     kinds = set()
     leaf = inp.get("leaf", True)
+    if inp.get("warm"):
+        # a training loop re-uses the Molecule/Energy objects: take the gradient on a LATER call, not on the first one
+        with torch.no_grad():
+            for _ in range(int(inp["warm"])):
+                _outputs(mol, en, {param: p0.clone()}, which)
     base = p0.clone().requires_grad_(True)
     t = base if leaf else base * torch.ones_like(base)  # non-leaf: output of an operation (as a network would produce)
     try:
@@ -87,7 +93,7 @@ def probe_param_grad(inp: Dict[str, Any]) -> Dict[str, Any]:
                 "fields": {"kinds": ["rejected"], "param": param, "mode": mode, "output": which, "leaf": leaf}}
     if not y.requires_grad:
         return {"ok": False, "observed": [f"{which} does not depend on the caller's {param} tensor in the autograd graph (requires_grad=False)"], "expected": "gradient reaches the caller's tensor", "predicate": "",
-                "fields": {"kinds": ["detached"], "param": param, "mode": mode, "output": which, "leaf": leaf}}
+                "fields": {"kinds": ["detached"], "param": param, "mode": mode, "output": which, "leaf": leaf, "warm": bool(inp.get("warm"))}}
     (g,) = torch.autograd.grad(y, base, allow_unused=True)
     # None = the output does not depend on this parameter in the graph (e.g. orbital energies on the core-core alpha): a zero gradient, checked against FD below
     g = np.zeros(len(p0)) if g is None else g.detach().numpy()
@@ -214,6 +220,14 @@ def gen_cases(ctx: Ctx):
     cases.append(("param_grad", {"names": ["h2o"], "method": "AM1", "param": "h_sp", "mode": 1, "output": "Etot", "leaf": True}))
     cases.append(("param_grad", {"names": ["h2o"], "method": "AM1", "param": "g_ss", "mode": 1, "output": "gap", "leaf": True}))
     cases.append(("param_grad", {"names": ["h2o"], "method": "AM1", "param": "g_ss", "mode": 2, "output": "gap", "leaf": True}))
+    # re-used objects: gradient taken on the second/third call on the same Molecule (density-dependent outputs with the implicit/unrolled backward)
+    cases.append(("param_grad", {"names": ["h2o"], "method": "AM1", "param": "U_ss", "mode": 1, "output": "homo", "leaf": True, "warm": 1}))
+    cases.append(("param_grad", {"names": [str(rng.choice(["nh3", "ch2o", "hcn"]))], "method": str(rng.choice(["PM3", "MNDO"])), "param": str(rng.choice(["beta_s", "U_pp", "g_ss"])), "mode": int(rng.choice([1, 2])),
+                                 "output": str(rng.choice(["homo", "gap"])), "leaf": bool(rng.integers(0, 2)), "warm": 2, "atoms": [0, 1]}))
+    # elements whose hpp = (g_pp - g_p2)/2 lies below the 0.1 eV floor used by the integrals (PM3 Cl, PM6_SP F): the floor must be differentiated consistently
+    cases.append(("param_grad", {"names": ["ch3cl"], "method": "PM3", "param": "g_pp", "mode": 0, "output": "Etot", "leaf": True, "atoms": [0, 1]}))
+    cases.append(("param_grad", {"names": [["ch3cl"], ["ch3f"]][int(rng.integers(0, 2))], "method": ["PM3", "PM6_SP"][int(rng.integers(0, 2))], "param": str(rng.choice(["g_pp", "g_p2"])), "mode": 1,
+                                 "output": str(rng.choice(["gap", "Etot"])), "leaf": bool(rng.integers(0, 2)), "atoms": [0, 1]}))
     n = 60 if ctx.thorough else 12
     for i in range(n):
         method = ["AM1", "PM3", "MNDO"][i % 3]
